@@ -315,7 +315,12 @@ class disassembler(object):
                     if i.spec.pfx is True:
                         if self.__i is None:
                             self.__i = i
-                        return self(bytestring[s.mask.size // 8 :], **kargs)
+                        try:
+                            return self(bytestring[s.mask.size // 8 :], **kargs)
+                        except BaseException:
+                            # (e.g. RecursionError on a very long run of prefixes)
+                            self.__i = None
+                            raise
                     elif i.spec.pfx == "xdata":
                         i.xdata(i,**kargs)
                     self.__i = None
